@@ -103,6 +103,17 @@ CHECKS = {
    note=("Trusted: loopback UDP delivery being synchronous (a late datagram aborts the run as an infrastructure error), the (id, offset) byte pattern segmentation, the verif accessors "
          "VerifBufLen / VerifTransports, TLC. Socket failure is injected by closing the transport's net.UDPConn underneath it."),
    design_ref="DESIGN.md section 6 C15"),
+ "C17": dict(
+   technique="TLA+ spec PromReporter.tla (Prometheus registry rule, the reporter's three by-id caches with the shared timers map, vectors keyed by label values, Observe(upper) x samples) checked by TLC; first-use / record histories on the real reporter and under real scopes, gathered from a fresh Registry, validated by TLC against PromReporterTrace.tla",
+   text=("TLC checks for all sequences of <= 4 (5) first uses over 2 names x 4 kinds x 2 key sets x timer flavour x callback flavour that a rejected registration is reported to the callback once, "
+         "that a panic only ever comes from a panicking callback, that every returned handle is live or no-op and one name is one family; and for all record histories of the small domain that "
+         "counter sums, last gauge values, timer counts and cumulative bucket counts (samples on / between / outside bounds, replayed as Observe(upper)) equal what was recorded, with separate "
+         "series per tag value; the pinned tree's nil-slot deviation and five weakenings are each shown to violate their clause. The same histories are executed on the real reporter - all eight "
+         "callback configurations incl. Configuration.OnError none / log / stderr / unset - directly and through real tally scopes with a report pass; the Registry is gathered and TLC compares "
+         "panics, callback invocations, live / no-op handles and every series with the model."),
+   note=("Trusted: the harness's token tables (gauge values by bit pattern, bounds by exact float equality with Buckets.AsValues()), recover() as panic observation, the prometheus client's Gather, TLC. "
+         "Non-negative counter increments; one bucket specification per name; sequential histories (concurrent first use is a seeded stress run, not model-level)."),
+   design_ref="DESIGN.md section 6 C17"),
  "C18": dict(
    technique="TLA+ spec StatsdReporter.tla (one client call per report; bucket stat name over C03's bucket pairs) checked by TLC; call logs of the real reporter over a recording statsd client validated by TLC against StatsdTrace.tla",
    text=("TLC checks, for all bucket specifications of the small ordered-token domain, that every report is one client call, that open ends are rendered as -infinity / infinity "
